@@ -1146,6 +1146,8 @@ func (r *c18Runner) report(expr string, pe parser.Expr, mode string, bt int64, r
 		// the operand whose range answer differs from upstream at step bt (the instant answers being right) explains it
 		if sub, _ := r.blame(pe, bt, &rq); sub != nil {
 			blamed = sub
+		} else if sub, _ := r.blame(pe, bt, nil); sub != nil {
+			blamed = sub // ... or the operand whose instant answer is wrong, the range answers being right
 		}
 	}
 	if bt != 0 && mode != "range_vs_instants" {
@@ -1242,6 +1244,12 @@ func (r *c18Runner) explain(blamed, pe parser.Expr, mode string, bt int64, rq c1
 		if all && n > 0 {
 			return "agg_min_max_infinity_clamped_to_maxfloat"
 		}
+	}
+	// (5) absent_over_time(x[r] offset o) as a range query: translated to absent_prom over a sub-query whose windows are not
+	// shifted back by the offset (points before the start of the range, 1 where samples exist). Recognised by its trigger.
+	if call, ok := blamed.(*parser.Call); ok && call.Func.Name == "absent_over_time" && mode != "instant" &&
+		strings.HasSuffix(c18Feature(blamed), "_offset") {
+		return "absent_over_time_with_offset_range_query"
 	}
 	// (4) range query, aggregation over a selector with a positive offset: the steps later than (end - offset) are merged
 	// into one window (or collide: "same labelset"); every step up to end - offset agrees, instant queries agree
